@@ -573,12 +573,104 @@ class Constrain(Contract):
         return [('C19:nearest-edge', eq(v.result, ite(n < lo, lo, ite(n > hi, hi, n))))]
 
 
+# ---- read-back accessors -----------------------------------------------------------------------------------
+def row_seg(w, i, a, b):
+    """cells a..b (0-based, inclusive) of row i as one string"""
+    if is_sym(i) or is_sym(a) or is_sym(b) or not hasattr(w, '_rows'):
+        import z3
+        from pyvc.grid import CellArr
+        F = z3.Function('RowSeg', CellArr, z3.IntSort(), z3.IntSort(), z3.IntSort(), z3.StringSort())
+        iz, az, bz = [x if is_sym(x) else z3.IntVal(x) for x in (i, a, b)]
+        return F(w._h.fields['cell'], iz, az, bz)
+    return ''.join(w.cell(i, j) for j in range(a, b + 1))
+
+
+class GetRegionOuter(LoopSpec):
+    vars = {'r': T.Int, 'c': T.Int, 'line': T.Text, 'ch': T.Text, 'sc': TSymList((('l', T.Text),), True)}
+
+    def invariant(self, v):
+        s = v.old.self
+        sc, r = v.l.sc, v.l._i0
+        rs, cs, ce = v.l.rs, v.l.cs, v.l.ce
+        return [('lines-count', eq(sc.len, r - rs)),
+                ('lines-so-far', forall(0, r - rs, lambda k: eq(sc.get(k), row_seg(s.w, rs - 1 + k, cs - 1, ce - 1)))),
+                ('bounds', And(1 <= rs, rs <= r, cs >= 1, ce <= s.cols, cs <= ce))]
+
+
+class GetRegionInner(LoopSpec):
+    vars = {'c': T.Int, 'line': T.Text, 'ch': T.Text}
+
+    def invariant(self, v):
+        s = v.old.self
+        return [('line-so-far', eq(v.l.line, row_seg(s.w, v.l.r - 1, v.l.cs - 1, v.l._i1 - 2)))]
+
+
+class GetRegion(ScreenContract):
+    name = SCR + '.get_region'
+    cursor_only = True
+    props = ('C19',)
+    loops = {0: GetRegionOuter(), 1: GetRegionInner()}
+
+    def shape(self, b):
+        return dict(self=screen_shape(b), rs=b.int('rs'), cs=b.int('cs'), re=b.int('re'), ce=b.int('ce'))
+
+    def outcomes(self, v):
+        return [Ret(TSymList((('l', T.Text),), True))]
+
+    def post(self, v):
+        old = v.old.self
+        r1, r2, c1, c2 = ordered_rect(old, v.old.rs, v.old.cs, v.old.re, v.old.ce)
+        res = v.result
+        return [('C19:one-line-per-row-of-the-rectangle', eq(res.len, r2 - r1 + 1)),
+                ('C19:each-line-is-the-row-segment',
+                 forall(0, r2 - r1 + 1, lambda k: eq(res.get(k), row_seg(old.w, r1 - 1 + k, c1 - 1, c2 - 1))))]
+
+
+def grid_text(w, sep, n):
+    """rows 0..n-1, each as a string of all its cells, joined by sep"""
+    if hasattr(w, '_rows'):
+        return sep.join(''.join(row) for row in w._rows[:n])
+    import z3
+    from pyvc.grid import CellArr, IntArr
+    F = z3.Function('GridText', z3.StringSort(), CellArr, IntArr, z3.IntSort(), z3.StringSort())
+    return F(z3.StringVal(sep), w._h.fields['cell'], w._h.fields['rowlen'], w._h.fields['len'].t)
+
+
+class Dump(ScreenContract):
+    name = SCR + '.dump'
+    cursor_only = True
+    props = ('C19',)
+
+    def outcomes(self, v):
+        return [Ret(T.Text)]
+
+    def post(self, v):
+        old = v.old.self
+        return [('C19:all-rows-concatenated', eq(v.result, grid_text(old.w, '', old.rows)))]
+
+
+class Unicode(ScreenContract):
+    name = SCR + '._unicode'
+    cursor_only = True
+    props = ('C19',)
+
+    def outcomes(self, v):
+        return [Ret(T.Text)]
+
+    def post(self, v):
+        old = v.old.self
+        return [('C19:rows-joined-by-newlines', eq(v.result, grid_text(old.w, '\n', old.rows)))]
+
+
 def register(reg):
     cs = [Constrain, PutAbs, Put, GetAbs, Get, FillRegion, Fill, InsertAbs, Insert, CursorSave, CursorSave2,
-          ScrollConstrain, ScrollScreen, ScrollScreenRows, ScrollUp, ScrollDown, Lf, Crlf, Newline, CursorUpReverse, Init]
+          ScrollConstrain, ScrollScreen, ScrollScreenRows, ScrollUp, ScrollDown, Lf, Crlf, Newline, CursorUpReverse, Init,
+          GetRegion, Dump, Unicode]
     cs += [c for c in CURSOR if c.name != SCR + '.cursor_constrain'] + [CursorConstrainLoose] + ERASE
     for c in cs:
         reg.add(c)
 
 
 ALL = None
+
+
